@@ -34,3 +34,27 @@ def evaluate(constant_string: 'optstr') -> 'val':
     ensures(result is None or is_str(result) or is_int(result) or is_float(result), label='kinds')
     # symbols are returned unchanged
     ensures(implies(is_str(result) and not constant_string.startswith('"'), result == constant_string), label='symbol')
+
+
+# ---- type(): contract stated on the real function and executed by the native sweep (the value model of
+# evaluate() -- Python floats and arbitrary-precision ints -- is outside the verified subset)
+
+@spec(uninterpreted=True, native="importlib.import_module('penman.constant').evaluate(s)")
+def value_of(s: 'val') -> 'val':
+    """the value evaluate() gives (its own contract is above)"""
+
+
+@contract('penman.constant:type', bounded=True, why='pytype/enum table lookups; Python float and int parsing')
+def type_c(constant_string: 'optstr') -> 'val':
+    raises(ConstantError)     # documented: unbalanced quotes / not a constant
+    raises(ValueError)        # recorded finding N3 (integer strings beyond the conversion limit)
+    raises(RecursionError)    # recorded finding N3
+    # the reported type matches the Python type of the evaluated value ...
+    ensures((result.value == 'Null') == (value_of(constant_string) is None), label='null')
+    ensures((result.value == 'Integer') == (is_int(value_of(constant_string)) and not is_bool(value_of(constant_string))),
+            label='integer')
+    ensures((result.value == 'Float') == is_float(value_of(constant_string)), label='float')
+    # ... and a string value is a STRING exactly when the constant is written in quotes, else a SYMBOL
+    ensures(implies(is_str(value_of(constant_string)),
+                    result.value == ('String' if constant_string.startswith('"') and constant_string.endswith('"')
+                                     else 'Symbol')), label='string-or-symbol')
